@@ -121,6 +121,57 @@ def path_compatible(lazy_path: Optional[str], eager_path: Optional[str], streami
     return True
 
 
+def bare_path(p: Optional[str]) -> str:
+    """path without namespace spelling (prefixes, Clark braces)"""
+    return re.sub(r'\{[^}]*\}', '', norm_path(p) or '')
+
+
+def same_path_mod1(a: Optional[str], b: Optional[str]) -> bool:
+    """equal paths up to namespace spelling and to an explicit [1]"""
+    return re.sub(r'\[1\]', '', bare_path(a)) == re.sub(r'\[1\]', '', bare_path(b))
+
+
+def thin_expected_path(tree: dict, eager_path: Optional[str]) -> Optional[str]:
+    """Finding C06-F12: the path a THIN lazy resource (lazy depth 1) computes for an error that the loaded tree
+    reports at `eager_path`.  When the k-th depth-1 element is processed, all the depth-1 elements before the
+    (k-1)-th have been deleted from the root (xml_loader.py _clear: `del parent[:k]`), so the position of its step is
+    counted among at most one preceding sibling: 1, or 2 when the immediately preceding depth-1 element has the same
+    tag.  Deeper steps are unaffected."""
+    parts = bare_path(eager_path).split('/')
+    if len(parts) < 3:
+        return None
+    m = re.match(r'^(.*?)(?:\[(\d+)\])?$', parts[2])
+    name, pos = m.group(1), int(m.group(2) or 1)
+    loc = lambda t: t.split('}')[-1]  # noqa
+    same = [k for k, c in enumerate(tree['cs']) if loc(c['tag']) == name]
+    if pos > len(same):
+        return None
+    k = same[pos - 1]
+    p = 1 if k == 0 else 1 + (1 if loc(tree['cs'][k - 1]['tag']) == name else 0)
+    parts[2] = name if p == 1 else f'{name}[{p}]'
+    return '/'.join(parts)
+
+
+def py_lazy_order(tree: dict, d: int, lvl: int = 0) -> list:
+    """python reading of `lazyOrder` (Model/Lazy.lean): document order above the lazy depth; an element of the lazy
+    depth followed by its descendants in reversed post-order"""
+    if lvl < d:
+        out = [tree['id']]
+        for c in tree['cs']:
+            out.extend(py_lazy_order(c, d, lvl + 1))
+        return out
+
+    def post(t: dict) -> list:
+        r = []
+        for c in t['cs']:
+            r.extend(post(c))
+        return r + [t['id']]
+    sub = []
+    for c in tree['cs']:
+        sub.extend(post(c))
+    return [tree['id']] + sub[::-1]
+
+
 class Eager:
     """everything measured on the fully loaded document"""
 
@@ -176,7 +227,7 @@ STATEFUL = re.compile(ID_TABLE.pattern + '|' + IDENT.pattern)   # errors that de
 
 def chunk_errors_as(eg: Eager, elem, xsd_element) -> list:
     """The errors the lazy driver collects for one depth-level element when it validates it against
-    `xsd_element` (schemas.py:1363-1384 as it is now): a validation context at level 1 on the document, the
+    `xsd_element` (schemas.py:1364-1385 as it is now): a validation context at level 1 on the document, the
     element's OWN namespace declarations pushed (commit c3a1309; the declarations of deeper elements are pushed by
     their parent groups as in any run), XsdElement.raw_decode.  The context is fresh: errors that depend on
     document-wide tables (ID/IDREF, identity constraints) are not predicted by this function."""
@@ -271,7 +322,7 @@ def build_tables(eg: Eager, schema, static_of: dict, created_of: Optional[dict] 
 
 def static_lookup(schema, eg: Eager) -> tuple[dict, dict]:
     """what the lazy driver's `get_element(tag, '/root/*')` returns for every depth-1 element, and the element it
-    creates for a depth-1 element without a match that carries xsi:type (schemas.py:1363-1366)"""
+    creates for a depth-1 element without a match that carries xsi:type (schemas.py:1364-1367)"""
     from xmlschema.namespaces import NamespaceMapper
     namespaces = NamespaceMapper(None, source=eg.res).namespaces
     root = eg.res.root
@@ -342,6 +393,10 @@ def known_match(case: dict, detail: dict) -> Optional[str]:
         return 'C06-F9' if detail.get('only_identity') else None
     if kind == 'decode-holes':   # placeholders and streamed chunks misaligned only for non-XsdElement chunks
         return 'C06-F2' if detail.get('nonlocal') else None
+    if kind == 'iter-order':     # same elements, each once; order == the proved lazyOrder (reversed post-order inside a chunk)
+        return 'C06-F11' if detail.get('same_multiset') and detail.get('order_is_lazyOrder') else None
+    if kind == 'thin-path':      # thin lazy resource: position of the depth-1 step counted after the deletion of siblings
+        return 'C06-F12' if detail.get('thin') and detail.get('path_is_thin_prediction') else None
     if kind == 'decode-prefixes':  # chunk values equal up to the prefixes of names, only for chunks with own declarations
         return 'C06-F10' if (detail.get('chunks_with_declarations') and detail.get('same_skeleton') and
                              detail.get('equal_up_to_prefixes') and
@@ -406,6 +461,18 @@ def check_ns_iter(ctx: Ctx, spec, marked: bytes, reqs: list, pend: list, case_ba
                 if sorted(seq) != expected_ids:
                     ctx.failure('lazy iter does not yield every element exactly once', case,
                                 {'yielded': seq, 'expected(sorted)': expected_ids})
+                elif seq != expected_ids:
+                    # the loaded tree iterates in document order (= preorder ids): the lazy order differs (C06-F11)
+                    keep = set(expected_ids)
+                    detail = {'kind': 'iter-order', 'same_multiset': True, 'lazy': seq, 'document order': expected_ids,
+                              'order_is_lazyOrder': seq == [i for i in py_lazy_order(tree, d) if i in keep]}
+                    fid = known_match(case, detail)
+                    if fid:
+                        ctx.known_hit(fid)
+                    else:
+                        ctx.failure('lazy iter yields the elements in another order than the loaded tree', case, detail)
+                else:
+                    ctx.count('iter:document-order')
                 for k, (txt, nch, ns) in obs.items():
                     dk = next(dd for i, dd, _, _ in flat if i == k)
                     if ns != scope[k]:
@@ -516,7 +583,7 @@ def check_validation(ctx: Ctx, spec, schema, xml: bytes, defects: list, reqs: li
     chunk_decl_type = sum(1 for c in eg.tree['cs'] if c['decls'] and any(
         ('{%s}type' % L.XSI) in e.attrib for e in eg.elem[c['id']].iter()))
     if chunk_decl_type:
-        ctx.count('chunk-own-xmlns-and-xsi-type-inside', chunk_decl_type)   # exercises schemas.py:1374-1376 (c3a1309)
+        ctx.count('chunk-own-xmlns-and-xsi-type-inside', chunk_decl_type)   # exercises schemas.py:1374-1377 (c3a1309)
     buffered_canon = None
     for nbytes in (BIG, 6):
         streaming = nbytes != BIG
@@ -672,8 +739,14 @@ def check_validation(ctx: Ctx, spec, schema, xml: bytes, defects: list, reqs: li
 
 
 def strip_xmlns(x: Any) -> Any:
+    """value of a depth-1 element without the xmlns pseudo-attributes at its root (a separately decoded chunk does not
+    carry them: not compared, see ASSUMPTIONS / finding C06-F10); a simple value that was wrapped only to carry them
+    ({'@xmlns:q': …, '$': v}) is unwrapped"""
     if isinstance(x, dict):
-        return {k: v for k, v in x.items() if not k.startswith('@xmlns')}
+        d = {k: v for k, v in x.items() if not k.startswith('@xmlns')}
+        if len(d) < len(x) and set(d) == {'$'}:
+            return d['$']
+        return d
     return x
 
 
@@ -729,6 +802,60 @@ def find_gen(x: Any) -> Optional[Any]:
             if g is not None:
                 return g
     return None
+
+
+def compare_error_paths(ctx: Ctx, case: dict, tree: dict, lazy: list, eager: list, thin: bool, what: str) -> None:
+    """Same multiset of (class, reason): pair the errors and compare their paths.  The pairing sorts both sides by
+    (error, path without the position of the depth-1 step, that position): errors of one kind in equally named
+    depth-1 elements are paired in document order."""
+    def key(item, lazy_side):
+        pth, c = item
+        parts = bare_path(pth).split('/')
+        pos = 0
+        if len(parts) >= 3:
+            m = re.match(r'^(.*?)(?:\[(\d+)\])?$', parts[2])
+            parts[2], pos = m.group(1), int(m.group(2) or 1)
+        return (c, re.sub(r'\[1\]', '', '/'.join(parts)), pos)
+    a = sorted(lazy, key=lambda x: key(x, True))
+    b = sorted(eager, key=lambda x: key(x, False))
+    for (lp, lc), (ep, ec) in zip(a, b):
+        if same_path_mod1(lp, ep):
+            continue
+        detail = {'kind': 'thin-path', 'thin': thin, 'lazy_path': lp, 'eager_path': ep, 'error': lc,
+                  'path_is_thin_prediction': same_path_mod1(lp, thin_expected_path(tree, ep))}
+        fid = known_match(case, detail)
+        if fid:
+            ctx.known_hit(fid)
+        else:
+            ctx.failure(what + ' reports an error at another path than the loaded document', case, detail)
+            return
+    ctx.count('paths-compared:' + what.replace(' ', '-'))
+
+
+def check_lazy_path(ctx: Ctx, spec, schema, xml: bytes, case_base: dict) -> None:
+    """path-selected validation through a lazy resource == the same selection on the loaded document (same driver
+    loop on both sides: no root run); errors, order and paths"""
+    from xmlschema import XMLResource
+    try:
+        eager = [(e.path, canon_err(e)) for e in schema.iter_errors(XMLResource(xml), path='*')]
+    except Exception:  # noqa
+        ctx.count('path-run:eager-raises')
+        return
+    tree, _ = L.doc_tree(XMLResource(xml))
+    for thin in (True, False):
+        case = dict(case_base, api='iter_errors(path)', path='*', depth=1, thin=thin)
+        ctx.case(case, bool(eager), 'api:iter_errors-path')
+        try:
+            lz = [(e.path, canon_err(e)) for e in schema.iter_errors(XMLResource(L.Slow(xml, BIG), lazy=1, thin_lazy=thin),
+                                                                     path='*')]
+        except Exception as ex:  # noqa
+            ctx.failure('path-selected lazy validation raised', case, repr(ex))
+            continue
+        if canon_seq([c for _, c in lz]) != canon_seq([c for _, c in eager]):
+            ctx.failure('path-selected lazy validation reports other errors than the same selection on the loaded document',
+                        case, {'lazy': lz, 'eager': eager})
+            continue
+        compare_error_paths(ctx, case, tree, lz, eager, thin, 'path-selected lazy validation')
 
 
 def check_decode(ctx: Ctx, spec, schema, xml: bytes, case_base: dict) -> None:
@@ -876,6 +1003,9 @@ def check_decode(ctx: Ctx, spec, schema, xml: bytes, case_base: dict) -> None:
                 ctx.known_hit(fid)
             else:
                 ctx.failure('lazy decoding reports other errors than decoding the loaded document', case, detail)
+        elif le == ee and not nonlocal_chunks:
+            compare_error_paths(ctx, case, eg.tree, [(e.path, canon_err(e)) for e in list(lerrs) + serrs],
+                                [(e.path, canon_err(e)) for e in eerrs], thin, 'lazy decoding')
 
 
 def compare(ctx: Ctx, reqs: list, pend: list, drv: Optional[Driver]) -> None:
@@ -958,6 +1088,7 @@ def family(ctx: Ctx, drv: Optional[Driver]) -> None:
             try:
                 check_validation(ctx, spec, schema, xml, defects, reqs, pend, base)
                 check_decode(ctx, spec, schema, xml, base)
+                check_lazy_path(ctx, spec, schema, xml, base)
             except Exception as ex:  # noqa  (eager run itself failed: not a C06 matter)
                 import traceback
                 ctx.count('eager-raises:' + type(ex).__name__)
@@ -1003,6 +1134,7 @@ def run_one(ctx: Ctx, drv: Optional[Driver], xsd: str, xml: bytes, base: dict) -
     check_ns_iter(ctx, spec, marked, reqs, pend, dict(base, xml=marked.decode()))
     check_validation(ctx, spec, schema, xml, [], reqs, pend, base)
     check_decode(ctx, spec, schema, xml, base)
+    check_lazy_path(ctx, spec, schema, xml, base)
     compare(ctx, reqs, pend, drv)
 
 
